@@ -149,6 +149,11 @@ def phrase_match(words, slop):
     return pred
 
 
+def _spans():
+    from whoosh.query import spans
+    return spans
+
+
 # leaf table: (name, query factory, predicate over a corpus tuple, scored?)
 def leaves():
     T = lambda w: (u"t:" + w, lambda: query.Term("t", w), lambda d: w in toks(d))
@@ -172,6 +177,7 @@ def leaves():
          (u"phrase alfa bravo", lambda: query.Phrase("t", [u"alfa", u"bravo"]), phrase_match([u"alfa", u"bravo"], 1)),
          (u"phrase bravo alfa~2", lambda: query.Phrase("t", [u"bravo", u"alfa"], slop=2), phrase_match([u"bravo", u"alfa"], 2)),
          (u"null", lambda: query.NullQuery, lambda d: False),
+         (u"spanfirst alfa<=1", lambda: _spans().SpanFirst(query.Term("t", u"alfa"), limit=1), lambda d: u"alfa" in toks(d)[:2]),
          ]
     return L
 
